@@ -206,8 +206,40 @@ derive
 pub struct RepairRequestHandler {
     pub epoch_info: EpochHandle,
     pub blockstore: SharedBlockstore,
-    pub network: OtherParts,
+    pub network: ResponderNet,
 }
+// the responder's network endpoint (`N: RepairResponderNetwork`): the responses sent so far as a ghost log
+#[verifier::external_body] pub struct ResponderNet { _p: () }
+#[verifier::external_body] pub struct SocketAddr { _p: () }
+impl ResponderNet {
+    pub uninterp spec fn sent(&self) -> Seq<(RepairResponse, SocketAddr)>;
+    // `self.network.send(&response, to).await` (R3b: interior mutability of the socket shown as &mut)
+    #[verifier::external_body]
+    pub fn send(&mut self, response: &RepairResponse, to: SocketAddr) -> (r: Result<(), IoError>)
+        ensures final(self).sent() == old(self).sent().push((*response, to))
+    { unimplemented!() }
+}
+// the epoch's validator table as far as the responder reads it (EpochInfo::{validators, validator}: a Vec and an index into it)
+#[verifier::external_body] pub struct EpochView { _p: () }
+pub struct ValidatorStub { pub repair_requester_address: SocketAddr }
+impl EpochView {
+    pub uninterp spec fn spec_validators(&self) -> Seq<ValidatorStub>;
+    #[verifier::external_body]
+    pub fn validators(&self) -> (r: &Vec<ValidatorStub>) ensures r@ == self.spec_validators() { unimplemented!() }
+    // EpochInfo::validator is `&self.validators[id.as_usize()]`: an out-of-range id PANICS, hence the precondition
+    #[verifier::external_body]
+    pub fn validator(&self, id: ValidatorIndex) -> (r: &ValidatorStub)
+        requires
+            // [C10.response_recipient_is_a_known_validator]
+            id.0 < self.spec_validators().len(),
+        ensures *r == self.spec_validators()[id.0 as int]
+    { unimplemented!() }
+}
+impl Clone for SocketAddr {
+    #[verifier::external_body]
+    fn clone(&self) -> (r: Self) ensures r == *self { unimplemented!() }
+}
+impl Copy for SocketAddr {}
 impl SharedPool {
     // `self.pool.write().await.add_block(id, parent).await` (R8); Pool::add_block asserts the parent is in an earlier slot
     #[verifier::external_body]
@@ -218,6 +250,10 @@ impl SharedPool {
     { unimplemented!() }
 }
 impl EpochHandle {
+    pub uninterp spec fn spec_view(&self) -> EpochView;
+    // ValidatorEpochInfo::epoch_info
+    #[verifier::external_body]
+    pub fn epoch_info(&self) -> (r: &EpochView) ensures *r == self.spec_view() { unimplemented!() }
     pub uninterp spec fn spec_leader_pk(&self, slot: Slot) -> PublicKey;
     // `&self.epoch_info.epoch_info().leader(*slot).pubkey` (R8)
     #[verifier::external_body]
@@ -407,6 +443,45 @@ ensures
             RepairRequestType::Shred(b, sl, i) => resp matches RepairResponse::Shred(_, shred) && shred.spec_payload().header.slot == b.0
                 && shred.spec_payload().header.slice_index == sl && shred.spec_payload().shred_index == i,
         }),
+@*/
+}
+
+impl RepairRequestHandler {
+/*@ extract src/repair.rs :: impl RepairRequestHandler<N>/fn send_response
+props C14 C10
+ret r
+elide-async
+sig `&self` => `&mut self`
+sig `std::io::Result<()>` => `Result<(), IoError>`
+requires
+        // [C10.response_recipient_is_a_known_validator] the caller has checked the (attacker-chosen) sender index
+        validator.0 < old(self).epoch_info.spec_view().spec_validators().len(),
+ensures
+        final(self).network.sent() == old(self).network.sent().push((response,
+            old(self).epoch_info.spec_view().spec_validators()[validator.0 as int].repair_requester_address)),
+        final(self).epoch_info == old(self).epoch_info,
+@*/
+
+/*@ extract src/repair.rs :: impl RepairRequestHandler<N>/fn answer_request
+props C14 C10
+ret r
+elide-async
+sig `&self` => `&mut self`
+sig `std::io::Result<()>` => `Result<(), IoError>`
+ensures
+        // [C10.unknown_sender_is_dropped] a request whose sender index is outside the validator set is dropped, nothing is sent
+        request.sender.0 >= old(self).epoch_info.spec_view().spec_validators().len()
+            ==> final(self).network.sent() == old(self).network.sent() && r is Ok,
+        // [C14.every_known_sender_gets_exactly_one_answer] ... every other request gets exactly one response - the data or a
+        // Nack - that quotes the request, sent to the sender's repair address
+        request.sender.0 < old(self).epoch_info.spec_view().spec_validators().len() ==> (
+            final(self).network.sent().len() == old(self).network.sent().len() + 1
+            && final(self).network.sent().last().0.req() == request.req_type
+            && final(self).network.sent().last().1 == old(self).epoch_info.spec_view().spec_validators()[request.sender.0 as int].repair_requester_address
+            && final(self).network.sent().drop_last() == old(self).network.sent()),
+closure 0
+        ret o: RepairResponse
+        ensures o == RepairResponse::Nack(request.req_type)
 @*/
 }
 
